@@ -687,7 +687,7 @@ def replay(prop, path):
         r.impl, r.model, r.mon, r.problems = run_programs(r.programs, d, shards=1)
         r.dir = d
         for fn in os.listdir(d):      # results of the stage cached by an earlier replay
-            if fn in ("DONE-codec.json", "extuse.json") or fn.startswith("miri-"):
+            if fn in ("DONE-codec.json", "extuse.json", "exttag.json") or fn.startswith("miri-"):
                 os.remove(os.path.join(d, fn))
         r.tier = "quick"
         alarms, dis, where, st = spec["stage"](r)
